@@ -231,8 +231,12 @@ def hyp_search(ctx, kind, strategy, check_case, max_examples, seed_salt=0, max_r
         if state["t_fail"] is not None and time.monotonic() - state["t_fail"] > shrink_budget_s:
             raise _StopShrink()  # shrink budget used up: keep the smallest failing case seen so far
         discs, nontrivial, classes = check_case(case)
-        ctx.case(_canon(case), nontrivial, classes,
-                 sample=(sample_of(case) if sample_of else case) if len(ctx.samples) < 4 else None)
+        # evidence samples: non-trivial cases taken at spaced points of the search, not its first (smallest) examples
+        take = False
+        if nontrivial and len(ctx.samples) < 4:
+            state["nt_seen"] = state.get("nt_seen", 0) + 1
+            take = state["nt_seen"] in (8, 30, 70, 140)
+        ctx.case(_canon(case), nontrivial, classes, sample=_clip_sample(sample_of(case) if sample_of else case) if take else None)
         for d in discs:
             if d.bucket in muted:
                 ctx.excluded["muted:" + d.bucket] += 1
@@ -272,6 +276,26 @@ def hyp_search(ctx, kind, strategy, check_case, max_examples, seed_salt=0, max_r
         ctx.violation(d, kind, case)
         muted.add(d.bucket)
     ctx.notes.append(f"{kind}: stopped after {max_rounds} rounds with buckets {sorted(muted)}")
+
+
+def _round_robin(lists, n):
+    """up to n samples, one from each job in turn, so that every part of a check is represented"""
+    out, depth = [], 0
+    while len(out) < n and any(len(l) > depth for l in lists):
+        for l in lists:
+            if len(l) > depth and len(out) < n and l[depth] not in out:
+                out.append(l[depth])
+        depth += 1
+    return out
+
+
+def _clip_sample(x, limit=1200):
+    """evidence samples stay readable: a case whose JSON form is long is stored as its clipped text"""
+    try:
+        t = jdump(x)
+    except Exception:
+        t = repr(x)
+    return x if len(t) <= limit else t[:limit] + " ...[clipped]"
 
 
 def _canon(case):
@@ -353,6 +377,7 @@ def run_property(mod, tier, seed):
 
     per_part = Counter()
     part_wall = Counter()
+    sample_lists = []
     for status, r in results:
         if status != "ok":
             harness_errors.append(r)
@@ -369,9 +394,7 @@ def run_property(mod, tier, seed):
                 merged.nt.add(hv)
             merged.nt_overflow += len(r["nt"]) - (len(merged.nt) - before)
         merged.nt_overflow += r["nt_overflow"]
-        for s in r["samples"]:
-            if len(merged.samples) < 8:
-                merged.samples.append(s)
+        sample_lists.append(list(r["samples"]))
         merged.classes.update(r["classes"])
         merged.excluded.update(r["excluded"])
         for k, v in r["known_hits"].items():
@@ -436,7 +459,7 @@ def run_property(mod, tier, seed):
         "distinct_nontrivial": int(distinct),
         "rule": mod.RULE + (f" [hash set capped at {MAX_HASHES}; {merged.nt_overflow} further non-trivial"
                             f" cases not counted as distinct]" if merged.nt_overflow else ""),
-        "samples": merged.samples[:8] or ["<none>"],
+        "samples": _round_robin(sample_lists, 8) or ["<none>"],
         "classes": dict(sorted(merged.classes.items())),
         "per_part_evaluations": dict(per_part),
         "per_part_cpu_s": {k: round(v, 2) for k, v in part_wall.items()},
